@@ -6,6 +6,12 @@ ALL = ["C%02d" % i for i in range(1, 21)]
 
 # property -> (category, technique, engine, text, note, design_ref)
 CHECKS = {
+ "C01": ("model_checking",
+         "bounded-exhaustive enumeration of body shapes x every single-field corruption against a reference balance checker over known openings (objects); snapshot exploration of fork-universe histories with sum invariants on every state (histories)",
+         "c01",
+         "Objects: every shape inputs 0-2 x outputs 1-3 x kernels 1-2 x offset {0,k} (quick 36 shapes with rotating kernel variant; thorough the full product with Plain/HeightLocked/NRD on two worlds) as a transaction and as a block body with coinbase on a real chain, plus every applicable entry of a closed corruption catalogue (amount, fee, offset, dropped/duplicated/foreign kernel, swapped or foreign proofs and signatures, excess with an H component, coinbase amount/flag forgeries, split or diverted reward), re-rooted and re-mined so that only the targeted rule can fail. Transaction::validate, Block::validate and Chain::process_block must accept iff a reference over the openings (integer values, 256-bit scalars mod n written in the harness; never touches a commitment) accepts; after every accepted block validate(true/false), stored block sums and the total offset equal the values computed from the openings. Histories: on every state of the C02 fork universes Chain::validate passes and get_block_sums of every best-chain block equals the sums over the reference unspent set and kernels.",
+         "The reference never sums commitments; secp commit_sum is used only to turn reference scalars into the expected stored sums.",
+         "DESIGN.md §4 C01"),
  "C02": ("model_checking",
          "explicit-state exploration of delivery histories on the real Chain (snapshot DFS with fingerprint memoisation, invalid blocks as probes at every state) against a reference ledger",
          "c02",
